@@ -19,7 +19,7 @@ GRID7 = [-3.0, -1.0, 0.0, 0.5, 1.0, 2.0, 3.0]
 CMPS = ['=', '==', '<', '<=', '>', '>=', '!=']
 LHS = ['{0}', '2*{0}-{2}', '{0}*{1}']
 RHS = ['{1}+1', '{1}', '3']
-RHS_Q = ['{1}+q', 'q']                 # need locals={'q': 0.5}
+RHS_Q = ['{1}+pi', 'pi']               # need locals={'pi': 0.5}; the name is also exported by math / numpy: the user's value must win
 QVAL = 0.5
 TOL = REL = F(1e-15)                   # documented defaults (the doubles, exactly)
 
@@ -162,8 +162,8 @@ def program(T, scheme, specs, given, configs, containers, constraint_clause, joi
     import mystic.coupler as cp
     name, variables, n, idx = SCHEME[scheme]
     text = '\n'.join(line_text(scheme, s) for s in specs)
-    use_q = any('q' in s[2] for s in specs)
-    consts = {'q': QVAL} if use_q else None
+    use_q = any('pi' in s[2] for s in specs)
+    consts = {'pi': QVAL} if use_q else None
     nvars = n if given else None
     rels = R.parse(text, variables, locals=consts)
     mvars = variables if isinstance(variables, str) else list(variables)
@@ -597,7 +597,7 @@ def run(ctx):
     a, b = items[:len(_chunks(one, 4))], items[len(_chunks(one, 4)):]
     items = [it for pair in itertools.zip_longest(a, b) for it in pair if it is not None]
     ctx.bounds = {
-        'lhs': LHS, 'rhs': RHS, 'rhs_with_locals_constant(q=0.5)': RHS_Q, 'comparators': CMPS, 'values': GRID7,
+        'lhs': LHS, 'rhs': RHS, 'rhs_with_locals_constant(pi=0.5)': RHS_Q, 'comparators': CMPS, 'values': GRID7,
         'schemes(name,variables,dim,indices of {0},{1},{2})': [list(map(str, s)) for s in SCHEMES],
         'programs': {'1 line': len(one), '2 lines': len([p for p in rest if len(p[1]) == 2]), '3 lines': len([p for p in rest if len(p[1]) == 3])},
         'second_lines': 'all 63' if th else COVER, 'third_line_pairs': len(third),
